@@ -1,8 +1,8 @@
 import DaskModel.Model.BlockScan
-import DaskModel.Lemmas.TreeReduce
+import DaskModel.Lemmas.ArrayReduce
 /-! K2 lemmas: sequential block scan = global scan; soundness of the interval checker for Blelloch schedules. -/
 namespace Dask.BlockScan
-open Dask.TreeReduce (sfold sfold_append foldl_assoc IsMonoid foldr_eq_sfold)
+open Dask.ArrayReduce (sfold sfold_append foldl_assoc IsMonoid foldr_eq_sfold)
 
 variable {α : Type}
 
